@@ -7,6 +7,7 @@ import (
 	"bytes"
 	"fmt"
 	"io"
+	"math"
 	"os"
 	"path/filepath"
 	"regexp"
@@ -14,6 +15,7 @@ import (
 	"sort"
 	"strings"
 
+	"github.com/DDP-Projekt/Kompilierer/src/ast"
 	"github.com/DDP-Projekt/Kompilierer/src/compiler"
 	"github.com/DDP-Projekt/Kompilierer/src/ddperror"
 	"github.com/DDP-Projekt/Kompilierer/src/parser"
@@ -61,6 +63,41 @@ type Resp struct {
 	Deps      []string `json:"deps,omitempty"`
 	RenderErr string   `json:"render,omitempty"`
 	Internal  bool     `json:"internal,omitempty"` // compile: error is a CompilerError (="Unerwarteter Fehler")
+	Lits      []LitV   `json:"lits,omitempty"`     // op "lits": literal nodes of the main module in visiting order
+}
+
+// LitV is the value the parser assigned to one literal node.
+type LitV struct {
+	Kind string `json:"k"` // int float bool char string
+	Src  string `json:"s"` // token literal
+	I    int64  `json:"i,omitempty"`
+	F    uint64 `json:"f,omitempty"` // math.Float64bits
+	B    bool   `json:"b,omitempty"`
+	R    []rune `json:"r,omitempty"`
+}
+
+type litCollector struct{ out *[]LitV }
+
+func (litCollector) Visitor() {}
+func (c litCollector) VisitIntLit(e *ast.IntLit) ast.VisitResult {
+	*c.out = append(*c.out, LitV{Kind: "int", Src: e.Literal.Literal, I: e.Value})
+	return ast.VisitRecurse
+}
+func (c litCollector) VisitFloatLit(e *ast.FloatLit) ast.VisitResult {
+	*c.out = append(*c.out, LitV{Kind: "float", Src: e.Literal.Literal, F: math.Float64bits(e.Value)})
+	return ast.VisitRecurse
+}
+func (c litCollector) VisitBoolLit(e *ast.BoolLit) ast.VisitResult {
+	*c.out = append(*c.out, LitV{Kind: "bool", Src: e.Literal.Literal, B: e.Value})
+	return ast.VisitRecurse
+}
+func (c litCollector) VisitCharLit(e *ast.CharLit) ast.VisitResult {
+	*c.out = append(*c.out, LitV{Kind: "char", Src: e.Literal.Literal, R: []rune{e.Value}})
+	return ast.VisitRecurse
+}
+func (c litCollector) VisitStringLit(e *ast.StringLit) ast.VisitResult {
+	*c.out = append(*c.out, LitV{Kind: "string", Src: e.Literal.Literal, R: []rune(e.Value)})
+	return ast.VisitRecurse
 }
 
 func (r *Resp) NErrors() int {
@@ -144,7 +181,7 @@ func Handle(q *Req) (r Resp) {
 		r.Diags = diags
 	}()
 	switch q.Op {
-	case "parse":
+	case "parse", "lits":
 		if src == nil {
 			var err error
 			src, err = os.ReadFile(q.File)
@@ -167,6 +204,9 @@ func Handle(q *Req) (r Resp) {
 		if mod != nil && mod.Ast != nil {
 			r.HasModule = true
 			r.Faulty = mod.Ast.Faulty
+			if q.Op == "lits" {
+				ast.VisitModule(mod, litCollector{&r.Lits})
+			}
 		}
 	case "compile":
 		if src == nil {
